@@ -4,6 +4,7 @@
   in the long form, `mov rax, imm64`; the ISA fragment has no store).  AArch64: Model/A64.
   32-bit ARM: see C16 (the scratch register of the literal load is callee-saved: finding F6).
 -/
+import InjModel.Generated.Layout
 import InjModel.Props.C01
 import InjModel.Props.C15
 import InjModel.Props.C16
@@ -67,6 +68,10 @@ theorem C13_a64_long (pc target : Nat) (hp : pc < 9223372036854775808) (ht : tar
 /-- **32-bit ARM**: transparency fails for the callee-saved set (finding F6, proved in C16). -/
 theorem C13_a32_callee_saved_false : ¬ C16_callee_full := C16_callee_full_false
 
+/-- the model's state is complete for the back ends: `injector_core` declares no process-wide or
+    thread-local mutable state (regenerated from the source on every run) -/
+theorem C13_state_modelled : Generated.Layout.coreStatics = [] := by decide
+
 end Inj.Props
 
 #print axioms Inj.Props.C13_x86
@@ -74,3 +79,4 @@ end Inj.Props
 #print axioms Inj.Props.C13_a64_entry
 #print axioms Inj.Props.C13_a64_long
 #print axioms Inj.Props.C13_a32_callee_saved_false
+#print axioms Inj.Props.C13_state_modelled
